@@ -52,6 +52,7 @@ type pev struct {
 	// references written there that get evaluated (shared by the models of one read)
 	envNested  map[*tn]bool
 	nestedHits *int
+	nonCanon   *int // texts becoming a non-canonically written value (shared like nestedHits)
 	org        byte // where the setting being evaluated is written: 0 configuration, 'e' environment
 	fromEnv    int  // names of the configuration answered by the environment
 	envRefs    int  // references written in the environment evaluated
@@ -270,8 +271,35 @@ func (p *pev) evalNode(n *tn, st []string) pval {
 		if t := strings.TrimSpace(v.s); t != "" {
 			v.s = t
 		}
+		if !canonicalText(v.s) {
+			// the substituted text only BECOMES a number (bool, null) by the
+			// text->value step, written in a way the library does not print it
+			// (9e9, 1e3, 5.0, 0x10, on): how such a value reads when it is
+			// spliced into another text is a question of number rendering, not
+			// of this property - the read is not judged
+			p.ambiguous = true
+			if p.nonCanon != nil {
+				*p.nonCanon++
+			}
+		}
 	}
 	return v
+}
+
+// canonicalText: the text->value step leaves s a text, or makes the integer
+// or boolean of it that is printed exactly as s.
+func canonicalText(s string) bool {
+	switch x := vx.ExpectText(s).(type) {
+	case string:
+		return true
+	case int64:
+		return strconv.FormatInt(x, 10) == s
+	case uint64:
+		return strconv.FormatUint(x, 10) == s
+	case bool:
+		return strconv.FormatBool(x) == s
+	}
+	return false
 }
 
 // refStr: ${name} in string context.
